@@ -218,13 +218,30 @@ Qed.
 Print Assumptions C18_default_bandwidth_later_only_refuted.
 
 (* Resources (model of the REPAIRED Conn.Close): after any history of
-   configurations, accepts and closes the live per-connection buckets are
-   exactly those of the connections still open; none when all are closed. *)
+   configurations, accepts and closes -- each close with ANY outcome of the
+   underlying connection's Close ([LClose id ok], ok : bool) -- the live
+   per-connection buckets are exactly those of the connections still open; none
+   when all are closed. *)
 Theorem C18_close_releases : forall ops,
   let l := fst (lrun listener_init ops) in
   l_live l = sum_buckets (l_conns l) /\ (l_conns l = [] -> l_live l = 0).
 Proof. exact release_all. Qed.
 Print Assumptions C18_close_releases.
+
+(* one Close, whatever the wrapped connection's Close returns: the buckets of
+   that connection are released and it is no longer open *)
+Theorem C18_close_releases_any_underlying_outcome : forall ops id uok c r,
+  let l := fst (lrun listener_init ops) in
+  filter (fun c => Nat.eqb (c_id c) id) (l_conns l) = c :: r ->
+  l_live (fst (close_conn l id uok)) = l_live l - c_nbuckets c /\
+  ~ In id (map c_id (l_conns (fst (close_conn l id uok)))) /\
+  close_conn l id uok = close_conn l id (negb uok).
+Proof.
+  intros ops id uok c r l F.
+  destruct (close_conn_releases l id uok c r (lrun_inv ops listener_init linv_init) F) as [A B].
+  split; [exact A|]. split; [exact B | apply close_conn_any_outcome].
+Qed.
+Print Assumptions C18_close_releases_any_underlying_outcome.
 
 (* The oracles run on the real outputs are the statements. *)
 Theorem C18_oracle_prefix : forall data delivered closed,
